@@ -2210,6 +2210,41 @@ class Interp:
                 res.ops.append(("call", "push", payload))
                 res.unrolled = getattr(res, "unrolled", []) + [(keep, payload)]
             return res
+        # a further adaptor on an unrolled list (`[..].into_iter().filter(p).map(f)`): element by element, under the
+        # condition that keeps the element
+        if last in ("map", "filter", "filter_map") and len(args) == 2 and isinstance(core(args[1]), ClosureV) and isinstance(a0, MutV) and getattr(a0, "unrolled", None):
+            cl = core(args[1])
+            res = MutV(CallV("std::vec::Vec::new", [], n))
+            res.depth = len(self.ctx)
+            res.unrolled = []
+            for keep, payload in a0.unrolled:
+                self.ctx.append(("cond", keep))
+                try:
+                    r = self.call_closure(cl, [payload])
+                finally:
+                    self.ctx.pop()
+                if last == "map":
+                    k2, p2 = keep, r
+                elif last == "filter":
+                    k2, p2 = And(keep, self.to_formula(r)), payload
+                else:
+                    flat_ = flatten_phi(r)
+                    if not all(isinstance(core(x), StructV) and core(x).variant in ("Some", "None") for _, x in flat_):
+                        k2, p2 = And(keep, atom("some", core(r).r())), Sel(r, "?")
+                    else:
+                        somes_ = [(c_, core(x).fields.get("0")) for c_, x in flat_ if core(x).variant == "Some"]
+                        k2 = And(keep, Or(*[c_ for c_, _ in somes_]))
+                        p2 = somes_[0][1] if len(somes_) == 1 else (PhiV(somes_) if somes_ else Unknown("none"))
+                if k2 is False:
+                    continue
+                res.ops.append(("call", "push", p2))
+                res.unrolled.append((k2, p2))
+            return res
+        # collecting an unrolled list: one conditional push per kept element (the same events as `if keep { v.push(x) }`)
+        if last == "collect" and len(args) == 1 and isinstance(a0, MutV) and getattr(a0, "unrolled", None) is not None and callee.endswith("Iterator::collect"):
+            for keep, payload in a0.unrolled:
+                self.muts.append((a0, "method:std::vec::Vec::push", (payload,), n, self.cur_fn(), And(self.cur_cond(), keep)))
+            return a0
         # consuming an unrolled list element by element: `for_each` runs the closure once per kept element, under the
         # condition that keeps it
         if last == "for_each" and len(args) == 2 and isinstance(core(args[1]), ClosureV) and isinstance(a0, MutV) and getattr(a0, "unrolled", None):
